@@ -1290,3 +1290,31 @@ B("benign-absence-set-before-loop", ["C10", "C05", "C07", "C08"], PJ,
                 working = False""",
   """            if self.time in absence_steps:
                 working = False""")
+M("C02-perform-skips-last-task", "C02", "R2.8", WF,
+  """        for task in self.task_list:
+            if only_auto_task:
+                if task.auto_task:
+                    task.perform(time, seed=seed)""",
+  """        for task in self.task_list[:-1] if len(self.task_list) > 3 else self.task_list:
+            if only_auto_task:
+                if task.auto_task:
+                    task.perform(time, seed=seed)""")
+M("C02-perform-called-twice", "C02", "R2.7", PJ,
+  """    def __perform(self):
+        self.workflow.perform(self.time)""",
+  """    def __perform(self):
+        self.workflow.perform(self.time)
+        if self.perform_auto_task_while_absence_time:
+            self.workflow.perform(self.time, only_auto_task=True)""")
+M("C10-absence-update-skips-solo-workers", "C10", "R10.2b", TM,
+  """    def check_update_state_from_absence_time_list(self, step_time):
+        \"\"\"""",
+  """    def check_update_state_from_absence_time_list(self, step_time, skip_solo=True):
+        \"\"\"""",
+  TM,
+  """        for worker in self.worker_list:
+            worker.check_update_state_from_absence_time_list(step_time)""",
+  """        for worker in self.worker_list:
+            if skip_solo and worker.solo_working and len(worker.assigned_task_list) > 0:
+                continue
+            worker.check_update_state_from_absence_time_list(step_time)""")
